@@ -288,11 +288,18 @@ def run_read_at(run, off, size=4):
     return None, None
 
 
-def summarise(segs):
+def summarise(segs, names=None):
+    """names: {arg atom: field name} - with it, the summary also records which configuration field lies at which byte"""
     out = []
     for sg in segs:
         if sg["kind"] == "raw":
-            consts = ",".join("%d:0x%X" % (o, t[1]) for (o, sz, t) in sorted(sg["content"]) if t[0] == 'ci' and sz == 4)
+            parts = []
+            for (o, sz, t) in sorted(sg["content"], key=lambda x: x[0]):
+                if t[0] == 'ci' and sz == 4:
+                    parts.append("%d:0x%X" % (o, t[1]))
+                elif names and t in names:
+                    parts.append("%d:%s/%d" % (o, names[t], sz))
+            consts = ",".join(parts)
             out.append("RAW(%d)%s" % (sg["bytes"], "{%s}" % consts if consts else ""))
         else:
             out.append(sg["kind"].upper())
@@ -316,8 +323,14 @@ class Grammar:
         self.outs = {k: ir.ungate(v) for k, v in self.sr.outputs(hr.out_index).items()}
         self.ret_lits = [list(ir.common_lits(c)) for c, _ in self.sr.ret_cond]
 
+    def field_names(self):
+        out = {}
+        for k, (_, r) in enumerate(self.hw.args[:self.hw.meta["nf"]]):
+            out[('arg', k)] = "".join(str(x) for x in r) if isinstance(r, tuple) else str(r)
+        return out
+
     def summary(self):
-        return {"W": summarise(self.Wc), "R": ["RAW(%d)" % sg["bytes"] if sg["kind"] == "raw" else sg["kind"].upper() for sg in self.Rc]}
+        return {"W": summarise(self.Wc, self.field_names()), "R": ["RAW(%d)" % sg["bytes"] if sg["kind"] == "raw" else sg["kind"].upper() for sg in self.Rc]}
 
 
 def build_pairs(specs, tag, ndebug=True):
